@@ -659,8 +659,9 @@ def impl_sc_e2e(case):
 # ---- watchers of ServiceCheck-backed services joining and leaving at any loop iteration ----------------------
 
 class TimedFn:
-    """check function whose result depends on the time it returns: phases [(t_from, r)], r in T F N B R;
-    each run takes `dur` ticks (-1: no suspension)"""
+    """check function whose result depends on the time it returns: phases [(t_from, r)], r in T F N B R H;
+    each run takes `dur` ticks (-1: no suspension); in an H phase the dependency hangs (the run never ends
+    by itself)"""
 
     def __init__(self, loop, phases, dur):
         self.loop, self.phases, self.dur = loop, [tuple(p) for p in phases], dur
@@ -681,9 +682,13 @@ class TimedFn:
         self.active += 1
         self.max_active = max(self.max_active, self.active)
         try:
+            if self.result_at(rec[0]) == 'H':
+                await self.loop.create_future()
             if self.dur >= 0:
                 await asyncio.sleep(self.dur * TICK)
             r = self.result_at(round(self.loop.time() / TICK))
+            if r == 'H':
+                await self.loop.create_future()
             rec[2] = r
             if r == 'R':
                 raise RuntimeError('scripted failure')
